@@ -276,6 +276,19 @@ def run(model: RepoModel, rep, tier: str):
                 sentinels[st.targets[0].id] = -st.value.operand.value
         decremented = {x.target.id for x in walk_no_nested(gs.node) if isinstance(x, ast.AugAssign) and isinstance(x.op, ast.Sub) and isinstance(x.target, ast.Name)}
         for pv, sval in sorted(sentinels.items()):
+            # a positive test that the sentinel itself satisfies: `pv in (-1, other)` / `pv == -1 or ...` inside the match condition
+            for cmp_ in [x for x in walk_no_nested(gs.node) if isinstance(x, ast.Compare) and len(x.ops) == 1 and isinstance(x.ops[0], ast.In)
+                         and isinstance(x.left, ast.Name) and x.left.id == pv and isinstance(x.comparators[0], (ast.Tuple, ast.List, ast.Set))]:
+                vals = [(-e.operand.value if isinstance(e, ast.UnaryOp) and isinstance(e.op, ast.USub) and isinstance(e.operand, ast.Constant) else
+                         (e.value if isinstance(e, ast.Constant) else None)) for e in cmp_.comparators[0].elts]
+                key = f"{TA}::TaintRuleApplier.get_sink_tag_by_rules::`{norm(cmp_)}` excludes the sentinel {sval}"
+                if sval in vals:
+                    rep.violation("C11.R3", key, TA, cmp_.lineno,
+                                  f"`{norm(cmp_)}` is satisfied by `{pv}` == {sval}, the value it has when the rule target names no recognised "
+                                  f"argument position: such a rule now matches a tainted value in every position, so a flow is reported for an "
+                                  f"argument the rule does not name")
+                else:
+                    rep.holds("C11.R3", key, TA, cmp_.lineno, "membership test does not list the sentinel")
             for cmp_ in [x for x in walk_no_nested(gs.node) if isinstance(x, ast.Compare) and len(x.ops) == 1 and isinstance(x.ops[0], ast.Eq)]:
                 sides = [cmp_.left, cmp_.comparators[0]]
                 if not any(isinstance(sd, ast.Name) and sd.id == pv for sd in sides):
@@ -407,6 +420,10 @@ def run(model: RepoModel, rep, tier: str):
                           f"displace one that justified a flow, so adding rules removes previously reported flows")
         else:
             rep.holds("C11.R5", key, "taint/rule_manager.py", rmc.node.lineno, f"{appends} append site(s); never reassigned, filtered or reordered")
+    # keyword arguments are paired with parameter names consistently (shared with C07.R4): a wrong pairing reports a flow into a
+    # sink argument that only ever holds a constant
+    from .c07 import _r4_keyword_order
+    _r4_keyword_order(model, rep, "C11.R6")
 
 
 # ---------------------------------------------------------------- self-test mutants
@@ -421,7 +438,14 @@ def _m(kind, cls, func, pred, new=None, nth=0):
     return mut
 
 
+def _text(old, new):
+    return lambda src: __import__("sa.mutate", fromlist=["x"]).text_replace(src, old, new)
+
+
 MUTANTS = [
+    ("sentinel-accepted-by-membership", TA, _text("                        if (target_pos != -1 and weight_pos == target_pos) or \\\n                            (target == TAG_KEYWORD.TARGET) or \\\n                            (not target):",
+                                                  "                        if target_pos in (-1, weight_pos) or target == TAG_KEYWORD.TARGET:"),
+     "excludes the sentinel"),
     ("sentinel-exclusion-dropped", TA, _m("expr", "TaintRuleApplier", "get_sink_tag_by_rules",
                                           lambda e: isinstance(e, ast.BoolOp) and isinstance(e.op, ast.And) and "target_pos != -1" in norm(e),
                                           "weight_pos == target_pos"), "excludes the sentinel"),
